@@ -17,6 +17,7 @@ import Gozod.Model.FormatSpecV6
 import Gozod.Model.FormatSpecV6E
 import Gozod.Model.FormatSpecDT
 import Gozod.Model.GoParsers
+import Gozod.Model.GoNetip
 import Gozod.Gen.Regexes
 import Gozod.Drv.Loop
 namespace Gozod.Drv.C20
@@ -117,7 +118,7 @@ def optionFormats : List Format :=
 def formats : List Format := [
   ⟨"ipv4", Fmt.ipv4.run, Fmt.ipv4.run⟩,
   ⟨"ipv6", Fmt.ipv6.run, Parsers.goIPv6⟩,
-  ⟨"cidrv4", Fmt.cidrv4.run, Parsers.goCIDRv4⟩,
+  ⟨"cidrv4", Fmt.cidrv4.run, Netip.cidrv4⟩,   -- netip.ParsePrefix ∧ Is4 transcribed from the Go source (Model/GoNetip.lean)
   ⟨"cidrv6", Fmt.cidrv6.run, Parsers.goCIDRv6⟩,
   ⟨"mac", (Fmt.mac 58).run, (Fmt.mac 58).run⟩,
   ⟨"macdash", (Fmt.mac 45).run, (Fmt.mac 45).run⟩,
